@@ -154,7 +154,7 @@ def build(harness, build_name, extra_flags=()):
 # ---------------------------------------------------------------- crash classification
 def _first_repo_frame(text):
     """function name of the first stack frame that lies in the library headers"""
-    for m in re.finditer(r"#\d+ 0x[0-9a-f]+ in (.+?) (\S+?):(\d+)", text):
+    for m in re.finditer(r"#\d+ (?:0x[0-9a-f]+ in )?(.+?) (\S+?):(\d+)", text):
         func, path = m.group(1), m.group(2)
         if "/include/st_" in path or os.path.basename(path).startswith("st_"):
             func = re.sub(r"\(.*$", "", func).strip()
@@ -335,7 +335,7 @@ def run_pool(binp, build_name, prop, tier, seed, nworkers, rundir, dbits, extra_
                 continue
             w = j["w"]
             stderr = _read(j["err"])
-            if rc == 0 and os.path.exists(os.path.join(rundir, "w%d.json" % w)):
+            if (rc == 0 or (rc == 66 and build_name == "tsan")) and os.path.exists(os.path.join(rundir, "w%d.json" % w)):
                 try:
                     rep = json.load(open(os.path.join(rundir, "w%d.json" % w)))
                 except ValueError as e:
